@@ -18,8 +18,8 @@ func init() {
 
 func (c *Check) minDepositFunc(rule string) *Func {
 	var out *Func
-	for _, f := range c.handFuncs("keeper") {
-		if f.Obj == nil || len(f.Res) != 1 || typeName(f.Res[0].Type()) != "sdk.Coins" {
+	for _, f := range c.P.Funcs {
+		if f.Obj == nil || f.Body == nil || !f.isHandWritten() || f.pkgName() != "keeper" || len(f.Res) != 1 || typeName(f.Res[0].Type()) != "sdk.Coins" {
 			continue
 		}
 		hasPricing := false
